@@ -25,11 +25,12 @@ chk('C05', 'model_checking',
     'bounded symbolic execution of LLVM IR (own executor, z3) + native ASan/UBSan replay', 'DESIGN.md §3 C05')
 
 chk('C01', 'model_checking',
-    'Schema 2.x: symbolic execution of the real create_track / update / snapshot path (snapshot_to_row, convert::read/write, the five codecs, track_table, sqlite_modern_cpp) over the key/value sqlite3 model. '
+    'Both schema generations (2.x: snapshot_to_row, convert::read/write, the five codecs, track_table; 1.x: engine_track_impl, engine_storage, performance_data_format): symbolic execution of the real create_track / update / snapshot path '
+    'through sqlite_modern_cpp over the key/value sqlite3 model; the harness body uses only the public djinterop::database / track API and is shared. '
     'One group of snapshot fields is symbolic per run (numeric sentinel fields | cue and loop slots | strings, integers, key, time stamp, beat grid). Asserted: the read-back snapshot equals the statement\'s '
     'normalisation of the input (8 slots, whole seconds, rating clamp, 0 / -1 sentinels) and is a fixed point of write+read; a rejected write is an exception.',
-    'Trusted: clang lowering, lsx, key/value sqlite3 model (C18 is the claim that rows are stored faithfully), identity zlib framing, the normalisation oracle in harness/h_track_v2.cpp, z3. '
-    'Schema 1.x is outside (its multi-table storage layer is not modelled); waveform content is only checked for the fixed point. Not replayed against a real SQLite.',
+    'Trusted: clang lowering, lsx, key/value sqlite3 model (C18 is the claim that rows are stored faithfully), identity zlib framing, the normalisation oracle in harness/h_track_common.h (generation-specific lines marked), z3. '
+    'Waveform content is only checked for the fixed point; 1.x: the BPM derived from a symbolic beat grid is outside (floating-point quotient), covered with concrete grids. Not replayed against a real SQLite.',
     'bounded symbolic execution of LLVM IR (lsx, z3) over a key/value sqlite3 model', 'DESIGN.md §3 C01')
 chk('C02', 'model_checking',
     'Bounded symbolic execution: for symbolic logical values of each of the 11 blob kinds (all field values symbolic; entry counts and label lengths from a stated grid) '
@@ -50,10 +51,10 @@ chk('C04', 'model_checking',
     'Trusted: clang lowering, lsx + runtime models, z3; identity zlib framing. Payloads longer than the bound are outside; the setter half is covered by C06 when claimed.',
     'bounded symbolic execution of LLVM IR (lsx, z3) + native replay', 'DESIGN.md §3 C04')
 chk('C06', 'model_checking',
-    'Schema 2.x, one inductive step per setter (25 setters incl. per-slot cue/loop setters at slots 0 and 7): from a track created from an arbitrary snapshot plus a second track, '
+    'Both schema generations, one inductive step per setter (25 setters incl. per-slot cue/loop setters at slots 0 and 7; whole-list setters over a longer stored list): from a track created from an arbitrary snapshot plus a second track, '
     'run the real setter with a symbolic value, then the real getter and snapshot(); assert getter == normalised value == snapshot field, every other field of this track and the whole other track unchanged '
     '(set_relative_path: derived file name and extension follow). Because the pre-state is arbitrary, any finite sequence of setters is covered by induction.',
-    'Trusted: as C01. Schema 1.x and set_waveform are outside. Not replayed against a real SQLite.',
+    'Trusted: as C01. set_waveform is outside; a setter may reject its value with an exception (then nothing is asserted about the getter). Not replayed against a real SQLite.',
     'bounded symbolic execution of LLVM IR (lsx, z3) over a key/value sqlite3 model, one inductive step per setter', 'DESIGN.md §3 C06')
 chk('C15', 'model_checking',
     'Executor monitors (out-of-bounds / null / freed access, UBSan checks and libstdc++ precondition assertions made explicit in the IR, branch on an uninitialised value, unreachable, terminate, step cap) over every public '
@@ -108,9 +109,27 @@ for pid, why in (
     ('C12', 'a finite comparison of DDL emitted by create() with reference dumps modulo SQLite\'s own parser; no symbolic variable, needs the real SQLite to normalise both sides (DESIGN.md §4)'),
     ('C17', 'quantifies over structural mutations of a catalog only SQLite can produce, judged by ~9000 lines of std::set<std::string> expectation lists; symbolic catalogs through that code are beyond reach, enumerating concrete mutations would be sampling, not this family (DESIGN.md §4)')):
     na(pid, why)
-for pid in ('C07', 'C08', 'C09'):
-    na(pid, 'needs a relational model of Playlist/PlaylistEntity (UPDATE..WHERE, six triggers, recursive views) validated differentially against the real SQLite before it may be trusted (gate G3, DESIGN.md §1/§4); not built in the time available, and no unvalidated model is shipped; the schema-1.x half (three redundant encodings, INSTEAD OF triggers) is beyond the SQL subset a bounded symbolic model can give meaning to')
-na('C11', 'judged by an independent reader of the stored SQLite file (integrity / foreign-key checks, verify(), triple crate encoding): facts about SQLite executing SQL; the sub-claims that reduce to other obligations are covered there (blob decodability: C03; derived file name/extension: C06) and the chain invariants share C09\'s missing relational model')
+chk('C07', 'model_checking',
+    'Schema 2.x: symbolic execution of the real database_impl / crate_impl / playlist_table / sqlite_modern_cpp over a relational sqlite3 model whose tables, UNIQUE constraints and triggers are parsed on every run from the DDL in '
+    "/repo's schema creator. History = concrete prefix (forest shapes incl. removals and moves) + 1-3 operations with symbolic kind, operands and names (create root/sub crate [after], rename, re-parent, remove). After every operation "
+    'crates(), root_crates(), parent(), name(), children(), descendants(), crate_by_id, lookups by parent and name and is_valid() of every handle are compared with a reference forest; invalid names, cycles, removed operands and duplicate '
+    'sibling names must be rejected without effect, legal operations must succeed.',
+    'Trusted: clang lowering, lsx, lsx/models_rel.py (SQL subset interpreter; validated on every run against the real SQLite: random statement sequences + native replay of sampled paths and of every counterexample through the library built '
+    'from the working tree), the reference forest in harness/h_crates.h, z3. Schema 1.x is outside (views with joins, INSERT..SELECT, INSTEAD OF triggers are beyond the SQL subset); histories longer than the bound are outside.',
+    'bounded symbolic execution of LLVM IR (lsx, z3) over a relational sqlite3 model parsed from the DDL + native replay against the real SQLite', 'DESIGN.md §3 C07')
+chk('C09', 'model_checking',
+    'Schema 2.x: the same runs as C07 judged by the order assertions (root_crates() / children() sequences: a crate created after a sibling is immediately after it, a created or moved crate appears exactly once among its new siblings, '
+    'no operation loses, duplicates or reorders the others), plus the membership runs of C08 judged by the entry-order assertion (crate.tracks() lists entries in the order added). The successor-pointer columns and the '
+    'splice triggers are executed by the relational model from the DDL text in /repo.',
+    'Trusted: as C07. The raw playlist_entity_table API (rows added with a caller-supplied successor) is outside: only the public crate API drives the entity chain.',
+    'bounded symbolic execution of LLVM IR (lsx, z3) over a relational sqlite3 model parsed from the DDL + native replay against the real SQLite', 'DESIGN.md §3 C09')
+chk('C08', 'model_checking',
+    'Schema 2.x: symbolic execution of crate_impl / playlist_entity_table / track_table / database_impl over the relational sqlite3 model. History = concrete prefix that makes track ids, crate ids and membership-row ids diverge '
+    '+ 1-3 operations with symbolic kind and operands (add, remove, clear, remove_track, remove_crate, create track / crate / sub-crate, also on removed operands). After every operation crate.tracks() of every crate is compared with the '
+    'reference relation (no duplicates, no removed tracks, other pairs untouched); containing_crates() is compared where the generation implements it.',
+    'Trusted: as C07 (reference relation in harness/h_members.h). Schema 1.x is outside (same reason as C07); tracks of other databases in a playlist are outside.',
+    'bounded symbolic execution of LLVM IR (lsx, z3) over a relational sqlite3 model parsed from the DDL + native replay against the real SQLite', 'DESIGN.md §3 C08')
+na('C11', 'judged by an independent reader of the stored SQLite file (integrity / foreign-key checks, verify(), triple crate encoding): facts about SQLite executing SQL; the sub-claims that reduce to other obligations are covered there (blob decodability: C03; derived file name/extension: C06) and the 2.x chain invariants are what C09 observes through the public listings; the 1.x triple crate encoding is outside the SQL subset of the relational model')
 PENDING = []
 
 def main():
